@@ -138,3 +138,52 @@ Definition sched_ans (delay : nat -> nat) : provider := fun x st =>
 (* the provider used by the correspondence harness: delay first, then the dependency table *)
 Definition table_ans (delay : nat -> nat) : provider := fun x st =>
   if Nat.ltb (asked st (xid x)) (delay (xid x)) then Postponed else dep_ans x st.
+
+(* ---------------------------------------------------------------- providers that ask the resolver
+   Real scope providers decide "has the reference I depend on been resolved" with
+   textx.scoping.tools.needs_to_be_resolved = ReferenceResolver.has_unresolved_crossrefs of the model
+   that owns it, which scans parser._crossrefs.  That list is only replaced at the END of
+   resolve_one_step, so the answer is a snapshot: a reference counts as settled once the step of its
+   model in which it resolved has finished.  [settled] is that observable; it is fixed during a step
+   and committed after it. *)
+Definition sprovider := (nat -> bool) -> provider.
+
+Definition commit (m : list xref) (st : state) (settled : nat -> bool) : nat -> bool :=
+  fun i => if existsb (fun x => Nat.eqb i (xid x)) m then is_some (tgt st i) else settled i.
+
+Fixpoint qround (ans : sprovider) (models : list (list xref)) (st : state) (settled : nat -> bool)
+  : option (state * list (list xref) * list (list xref) * nat * (nat -> bool)) :=
+  match models with
+  | [] => Some (st, [], [], 0, settled)
+  | m :: ms =>
+      match step (ans settled) m st with
+      | None => None
+      | Some (st1, np, d, c) =>
+          match qround ans ms st1 (commit m st1 settled) with
+          | None => None
+          | Some (st2, nps, ds, c', s2) => Some (st2, np :: nps, d :: ds, c + c', s2)
+          end
+      end
+  end.
+
+Fixpoint qloop (fuel : nat) (ans : sprovider) (models : list (list xref)) (st : state) (settled : nat -> bool) : outcome :=
+  match fuel with
+  | O => OutOfFuel
+  | S f =>
+      match qround ans models st settled with
+      | None => UnknownObject
+      | Some (st', pends, dels, c, settled') =>
+          if forallb (holds (total dels) c) loop_condition then qloop f ans pends st' settled'
+          else if holds (total dels) c error_condition then Unresolvable dels st'
+          else Ok st'
+      end
+  end.
+
+Definition qload (ans : sprovider) (models : list (list xref)) : outcome :=
+  qloop (S (total models)) ans models init (fun _ => false).
+
+(* the harness's provider in query mode: delay first, then the dependency table read through the snapshot *)
+Definition snap_ans (delay : nat -> nat) : sprovider := fun settled x st =>
+  if Nat.ltb (asked st (xid x)) (delay (xid x)) then Postponed
+  else if xnever x then Postponed
+  else if forallb settled (xdeps x) then Resolved (xtgt x) else Postponed.
